@@ -111,7 +111,10 @@ fn gen_abstract_heavy(src: &mut Src) -> rawlib::RLib {
 
 // Each conversion: description (choices) -> (transcript, number of keys in the largest unordered map on the path)
 fn conv_raw_to_gds(src: &mut Src) -> Result<(String, usize), String> {
-    let mut m = if src.bool() { gen_abstract_heavy(src) } else { rawlib::gen_rawlib(src, &RawGenOpts { abstracts: false, pico: true, annotations: false, nets_need_label_purpose: true, nonrect_nets: false, max_cells: 4, closed_polygons: false, abs_only_cells: true, shared_purpose_numbers: false, contact_near_bend: false, instances_of_abstracts: false }) };
+    // one input in four names shapes on layers that have no label purpose (export is then refused, or the
+    // label goes somewhere: the same way every time)
+    let no_label_purpose = src.prob(1, 4);
+    let mut m = if src.bool() { gen_abstract_heavy(src) } else { rawlib::gen_rawlib(src, &RawGenOpts { abstracts: false, pico: true, annotations: false, nets_need_label_purpose: !no_label_purpose, nonrect_nets: false, max_cells: 4, closed_polygons: false, abs_only_cells: true, shared_purpose_numbers: false, contact_near_bend: false, instances_of_abstracts: false }) };
     // a library may be nameless (every LEF import is)
     if src.prob(1, 4) || FORCE_NAMELESS.with(|c| c.get()) {
         m.name = String::new();
@@ -121,6 +124,12 @@ fn conv_raw_to_gds(src: &mut Src) -> Result<(String, usize), String> {
     let b = rawlib::build(&m);
     let t = match b.lib.to_gds() {
         Ok(g) => mask_dates(g),
+        // (the debug text of a refusal may print a whole Layer, hash maps included: not part of the result)
+        Err(e) if no_label_purpose => {
+            let mut s = format!("{:?}", e);
+            crate::engine::clip(&mut s, 40);
+            format!("ERR {}", s)
+        }
         Err(e) => format!("ERR {:?}", e),
     };
     Ok((t, keys))
@@ -137,6 +146,39 @@ fn conv_raw_to_proto(src: &mut Src) -> Result<(String, usize), String> {
         Err(e) => format!("ERR {:?}", e),
     };
     Ok((t, keys))
+}
+/// protobuf -> raw: the message of a generated library, read back; a message may define one cell name more than
+/// once (instances resolve to the latest definition before them), the cells keep their listing order
+fn conv_proto_to_raw(src: &mut Src) -> Result<(String, usize), String> {
+    let m = rawlib::gen_rawlib(src, &RawGenOpts { abstracts: true, pico: false, annotations: true, nets_need_label_purpose: false, nonrect_nets: true, max_cells: 6, closed_polygons: false, abs_only_cells: true, shared_purpose_numbers: false, contact_near_bend: false, instances_of_abstracts: false });
+    let b = rawlib::build(&m);
+    let mut p = match b.lib.to_proto() {
+        Ok(p) => p,
+        Err(e) => return Ok((format!("ERR export {:?}", e), 0)),
+    };
+    let n = p.cells.len();
+    if n >= 2 && src.prob(1, 2) {
+        let (i, j) = (src.index(n), src.index(n));
+        if i != j {
+            p.cells[j].name = p.cells[i].name.clone();
+        }
+    }
+    let t = match raw::Library::from_proto(p, None) {
+        Ok(l) => {
+            let mut t = transcript_raw(&l)?;
+            // (layers imported without a table have no label purpose: GDSII export of named shapes is refused,
+            // and the refusal's debug text prints a hash map; the message is exported again instead)
+            t.push_str("\n--- proto\n");
+            t.push_str(&match l.to_proto() {
+                Ok(p) => format!("{:?}", p),
+                Err(_) => "ERR export".to_string(),
+            });
+            t
+        }
+        Err(e) => format!("ERR {:?}", e),
+    };
+    // the importer keeps a name -> cell map
+    Ok((t, n))
 }
 fn conv_gds_to_raw(src: &mut Src) -> Result<(String, usize), String> {
     let mut m = crate::props::c06::gen_lib(src);
@@ -268,7 +310,7 @@ thread_local! {
     static FORCE_NAMELESS: std::cell::Cell<bool> = const { std::cell::Cell::new(false) };
 }
 type Conv = fn(&mut Src) -> Result<(String, usize), String>;
-const CONVS: &[(&str, Conv)] = &[("raw-to-gds", conv_raw_to_gds), ("raw-to-proto", conv_raw_to_proto), ("gds-to-raw", conv_gds_to_raw), ("lef-raw-lef", conv_lef_raw_lef), ("tetris-to-raw-gds-proto", conv_tetris)];
+const CONVS: &[(&str, Conv)] = &[("raw-to-gds", conv_raw_to_gds), ("raw-to-proto", conv_raw_to_proto), ("gds-to-raw", conv_gds_to_raw), ("proto-to-raw", conv_proto_to_raw), ("lef-raw-lef", conv_lef_raw_lef), ("tetris-to-raw-gds-proto", conv_tetris)];
 
 fn repeat_case(name: &'static str, f: Conv) -> impl Fn(&mut Src, &mut Ctx) -> Result<(), String> {
     move |src, ctx| {
@@ -345,6 +387,9 @@ fn across_a_second_case(src: &mut Src, ctx: &mut Ctx) -> Result<(), String> {
 fn emit_case(f: Conv) -> impl Fn(&mut Src, &mut Ctx) -> Result<(), String> {
     move |src, _ctx| {
         let (t, _) = f(src)?;
+        if let Ok(d) = std::env::var("VERIF_C20_DUMP") {
+            let _ = std::fs::write(format!("{}/transcript-{}.txt", d, std::process::id()), &t);
+        }
         Err(format!("T:{:016x}:{}", hash_str(&t), t.len()))
     }
 }
@@ -387,7 +432,7 @@ fn cross_process(run: &mut Run, name: &'static str, f: Conv, n: usize, words: us
     run.push(SubResult { name: format!("{}-cross-process", name), kind: "child processes", exhaustive: false, stats, failure, wall_s: t0.elapsed().as_secs_f64() });
 }
 fn run(run: &mut Run) {
-    run.rule("Inputs of C06, C07, C08, C14, C16 (GDSII hierarchies, raw libraries with multi-layer abstract ports and blockages, LEF libraries with several layers per pin, gridded cells with abstract views) as input descriptions; each description is materialised 6 times in this process (fresh hash maps each time) and in 3 separate child processes, converted (GDSII->raw, raw->GDSII, raw->protobuf, LEF->raw->LEF, gridded->raw->GDSII/protobuf) and rendered to a transcript that keeps every sequence order (GDSII timestamps masked; only the result type's own unordered maps are sorted). All transcripts of one description must be identical. Non-trivial = >= 2 keys in an unordered map on the conversion path; distinct by hash of (conversion, description).");
+    run.rule("Inputs of C06, C07, C08, C14, C16 (GDSII hierarchies, raw libraries with multi-layer abstract ports and blockages, LEF libraries with several layers per pin, gridded cells with abstract views) as input descriptions; each description is materialised 6 times in this process (fresh hash maps each time) and in 3 separate child processes, converted (GDSII->raw, raw->GDSII, raw->protobuf, protobuf->raw->protobuf incl. messages defining a cell name twice, LEF->raw->LEF, gridded->raw->GDSII/protobuf) and rendered to a transcript that keeps every sequence order (GDSII timestamps masked; only the result type's own unordered maps are sorted). All transcripts of one description must be identical. Non-trivial = >= 2 keys in an unordered map on the conversion path; distinct by hash of (conversion, description).");
     run.assume("hash seeds cannot be chosen: detection is probabilistic per input (>= 1 - 2^-5 for a two-key map within one process), the verdict over hundreds of inputs effectively deterministic; on a deterministic tree the check cannot fire");
     run.min_nontrivial = 100;
     for (name, f) in CONVS {
